@@ -153,7 +153,7 @@ def run(ctx):
     ctx.note("records_with_several_messages_at_one_error_range",
              sum(1 for r in recs if len({tuple(e) for e in r["errs"]}) > len({tuple(e[:4]) for e in r["errs"]})))
     ctx.rule("records = (program, configuration) runs of diagnose_file judged by TLC; programs are distinct texts generated by "
-             "DiagWF.tla (<= 2 library lines x LF/CRLF x every single-token drop/dup/truncation; the err family: one of 104 "
+             "DiagWF.tla (<= 2 library lines x LF/CRLF x every single-token drop/dup/truncation; the err family: one of 105 "
              "error-template lines -- invalid escapes, unfinished strings, malformed numerals, operators without operand, "
              "stray brackets, broken statements and doc tags -- alone with every token drop / truncation, or next to a valid "
              "line, also under runtime.version = Lua5.1; thorough adds sampled 3-line programs); non-trivial = at least one diagnostic or parse error")
